@@ -113,13 +113,23 @@ Theorem C06_radix_roundtrip : forall r n, 2 <= r <= 36 -> 0 <= n ->
 Proof. exact print_scan_roundtrip. Qed.
 Print Assumptions C06_radix_roundtrip.
 
-(* ---- 15.7.4.5: below 10^21, away from exact decimal ties and from -0, otto's toFixed (Go's
-   half-even 'f' format, range test included) is the ES5 function, for every double and argument ---- *)
+(* ---- 15.7.4.5: below 10^21 and away from exact decimal ties otto's toFixed (Go's half-even 'f'
+   format, range test included, -0 included since the repair) is the ES5 function, for every double
+   and argument ---- *)
 Theorem C06_toFixed_partial : forall bits f neg m e,
-  decode bits = DFin neg m e -> le_pow10 21 m e = false -> (m = 0 -> neg = false) ->
+  decode bits = DFin neg m e -> le_pow10 21 m e = false ->
   decimal_tie m e f = false -> m_to_fixed bits f = to_fixed bits f.
 Proof. exact toFixed_partial. Qed.
 Print Assumptions C06_toFixed_partial.
+
+(* ---- 15.7.4.5-7 (repaired): NaN and +-Infinity are answered before any RangeError test, with the
+   ES5 texts, for every argument ---- *)
+Theorem C06_nonfinite_formats : forall bits, (forall neg m e, decode bits <> DFin neg m e) ->
+  (forall f, m_to_exponential bits f = to_exponential bits f) /\
+  (forall p, m_to_precision bits p = to_precision bits p) /\
+  (forall f, m_to_fixed bits f = to_fixed bits f).
+Proof. exact nonfinite_formats. Qed.
+Print Assumptions C06_nonfinite_formats.
 
 (* ---- otto's deviations: "model = spec" refuted with concrete witnesses ---- *)
 (* String(89634963422590256): the integer literal is an int64 inside otto and prints all 17 digits *)
@@ -139,17 +149,9 @@ Theorem C06_toFixed_tie_refuted : exists bits f, m_to_fixed bits f <> to_fixed b
 Proof. exists 0x4004000000000000, 0. vm_compute. discriminate. Qed.
 Print Assumptions C06_toFixed_tie_refuted.
 
-Theorem C06_toFixed_negzero_refuted : exists f, m_to_fixed nzero_bits f <> to_fixed nzero_bits f.
-Proof. exists 2. vm_compute. discriminate. Qed.
-Print Assumptions C06_toFixed_negzero_refuted.
-
 Theorem C06_toExponential_refuted : exists bits f, m_to_exponential bits (Some f) <> to_exponential bits (Some f).
 Proof. exists 0x3FF8000000000000, 3. vm_compute. discriminate. Qed.
 Print Assumptions C06_toExponential_refuted.
-
-Theorem C06_infinity_format_refuted : exists f, m_to_exponential pinf_bits (Some f) <> to_exponential pinf_bits (Some f).
-Proof. exists 2. vm_compute. discriminate. Qed.
-Print Assumptions C06_infinity_format_refuted.
 
 Theorem C06_toPrecision_refuted : exists bits p, m_to_precision bits p <> to_precision bits p.
 Proof. exists 0x3FF0000000000000, 3. vm_compute. discriminate. Qed.
@@ -210,6 +212,9 @@ Example C06_layout_met :   (* 1e21 = 0x1B1AE4D6E2EF5 * 2^20... : digits "1", n =
   decode 0x444B1AE4D6E2EF50 = DFin false 0x1B1AE4D6E2EF50 17 /\ shortest_fast 0x1B1AE4D6E2EF50 17 = Some (1, 21) /\
   exp_form 0x1B1AE4D6E2EF50 17 = ((21 <? 21 + lenZ (dec_digits 1)) || (21 + lenZ (dec_digits 1) <=? -6)).
 Proof. vm_compute. repeat split; reflexivity. Qed.
+Example C06_nonfinite_met : (forall neg m e, decode pinf_bits <> DFin neg m e) /\ m_to_exponential pinf_bits (Some (-1)) = RStr str_Infinity /\
+  m_to_fixed nzero_bits 2 = to_fixed nzero_bits 2.
+Proof. vm_compute. repeat split; try reflexivity. intros; discriminate. Qed.
 Example C06_exponent_text_met : ch_e :: go_exp2 true (-7) = exp_part (-7).
 Proof. vm_compute. reflexivity. Qed.
 Example C06_radix_met : scan_radix 16 (radix_digits 16 255) = ([15; 15], []).
